@@ -588,3 +588,92 @@ def rule_sphinx_unchanged_pair(check, rule):
                     check.holds(rule, site_of(fi, r), 'the handler returns %s as autodoc passed them: no rebinding inside the guarded block is '
                                 'followed by a raising statement' % ', '.join(names), key=key)
     check.floor(rule, 'handlers of the Sphinx hook returning its own parameters', n, 1)
+
+
+def rule_retrieval_inside_window(check, rule):
+    """C07.R8a: a signature retrieved while the inspected object is in its *modified* state (inside the delete/restore
+    window: `__wrapped__` / `__signature__` set aside) can fail although retrieval of the intact object succeeds --
+    inspect then takes other routes (callable instance treated as builtin, ...).  Such a failure says nothing about
+    the object itself, so every retrieval call inside a `with <window>` block must have ValueError and TypeError
+    converted into the fallback (UnknownForwards) instead of letting them leave sigtools.signature()."""
+    from .rules_windows import find_cm_window
+    repo = check.repo
+    cg, es = get_escape(check)
+    w = find_cm_window(repo)
+    if w is None:
+        check.holds(rule, '-', 'no delete/restore window in the package: nothing is retrieved in a modified state', key='window-retrieval|none')
+        return
+    n = 0
+    for fi in repo.all_funcs():
+        for node in ast.walk(fi.node):
+            if not isinstance(node, ast.With):
+                continue
+            if not any(isinstance(it_.context_expr, ast.Call) and norm(it_.context_expr.func).split('.')[-1] == w.cls.name for it_ in node.items):
+                continue
+            # the whole statement counts: __enter__ itself probes `__signature__` of the half-stripped object, which for
+            # a computed (descriptor) attribute runs a retrieval in that state
+            for c in [node.items[0].context_expr]:
+                n += 1
+                chain = es.try_chain(fi, node)
+                for exc in ('ValueError', 'TypeError'):
+                    conv = False
+                    for tnode, handlers in chain:
+                        for h, names, rer in handlers:
+                            if any(es.catches(hn, exc) for hn in names) and rer == 'no':
+                                conv = True
+                    key = '%s|window-retrieval|%s|%s' % (fi.key, norm(c)[:50], exc)
+                    if conv:
+                        check.holds(rule, site_of(fi, c), '%s raised while the object is in its modified state becomes the fallback' % exc, key=key)
+                    else:
+                        check.violation(rule, site_of(fi, node), 'the block under `with %s` retrieves a signature while the wrapper attributes of the '
+                                        'object are set aside; a %s raised for the object in that state (inspect treats a callable instance that '
+                                        'defines __get__ as a builtin) leaves sigtools.signature() although the intact object has a signature'
+                                        % (norm(c)[:50], exc), key=key,
+                                        witness='@wrappers.decorator-wrapped def fn(self, x) looked up unbound: ValueError/AttributeError instead of (self, x)')
+    check.floor(rule, 'window blocks', n, 1)
+
+
+def rule_repr_robust(check, rule):
+    """C07.R8b: inspect formats the object into its error messages (repr) while the window has removed `__wrapped__` /
+    `__signature__`; a __repr__ that reads one of those attributes of self unguarded turns inspect's ValueError into an
+    AttributeError.  Every __repr__ of the package reads the window's attributes through getattr-with-default or under
+    an AttributeError handler."""
+    from .rules_windows import find_cm_window
+    repo = check.repo
+    w = find_cm_window(repo)
+    attrs = set()
+    if w is not None:
+        v = w.cls.assigns.get('attrs')
+        if v is not None:
+            for x in ast.walk(v):
+                if isinstance(x, ast.Constant) and isinstance(x.value, str):
+                    attrs.add(x.value)
+    if not attrs:
+        check.holds(rule, '-', 'no attribute is set aside by a window: __repr__ cannot meet a half-stripped object', key='repr|none')
+        return
+    n = 0
+    for fi in repo.all_funcs():
+        if fi.name not in ('__repr__', '__str__') or fi.cls is None:
+            continue
+        selfn = fi.params()[0][0]
+        for x in ast.walk(fi.node):
+            if isinstance(x, ast.Attribute) and x.attr in attrs and isinstance(x.value, ast.Name) and x.value.id == selfn and isinstance(x.ctx, ast.Load):
+                n += 1
+                handled = False
+                t = x
+                while t is not None and t is not fi.node:
+                    par = getattr(t, '_parent', None)
+                    if isinstance(par, ast.Try) and t in par.body and any(
+                            h.type is None or any(nm in norm(h.type) for nm in ('AttributeError', 'Exception')) for h in par.handlers):
+                        handled = True
+                    t = par
+                key = '%s|repr-reads|%s' % (fi.key, x.attr)
+                if handled:
+                    check.holds(rule, site_of(fi, x), '%s reads self.%s under an AttributeError handler' % (fi.qualname, x.attr), key=key)
+                else:
+                    check.violation(rule, site_of(fi, x), '%s reads self.%s unguarded, an attribute %s removes temporarily: when inspect formats the '
+                                    'object into an error message inside the window, AttributeError replaces the ValueError inspect was raising'
+                                    % (fi.qualname, x.attr, w.cls.name), key=key,
+                                    witness='@wrappers.decorator-wrapped def fn(self, x): sigtools.signature(fn) raises AttributeError')
+    if not n:
+        check.holds(rule, '-', 'no __repr__/__str__ reads %s of self' % '/'.join(sorted(attrs)), key='repr|clean', nontrivial=False)
